@@ -7,7 +7,14 @@ Correspondence (model: `lean/PercevalModel/Model/C13.lean`, driver `lean/Driver/
 * `convert_polarized_state(bs)` (spatial input exactly, preparation matrix numerically);
 * `SimulatorFactory.build(c, SLOS|Naive).probs(bs)` and `Processor.with_polarized_input(bs)` + `probs()`
   against the exact Fock-space distribution of `upol · prep` on the prepared input, sub-modes merged;
-* `POLARIZATION_MAPPING` / `Polarization(label).project_eh_ev()` against the label table.
+* `POLARIZATION_MAPPING` / `Polarization(label).project_eh_ev()` against the label table;
+* *sessions*: ONE long-lived object (the simulator of `SimulatorFactory.build`, or a `Processor`) serving a
+  history of requests — `probs` / `probs_svd` / `evolve` (merged |amplitude|²) with changing inputs (an all-H
+  input after a prepared one, the same input again, the vacuum, a rejected input), the circuit replaced
+  (`set_circuit`), extended (`add`) or re-tuned in place (`Parameter.set_value`) in between — against the
+  model's state machine `sessionStep` run over the same history (proved equal to the stateless answer:
+  `session_refines_stateless`, `session_history_independent`); a reply that is wrong in the session but
+  right on a fresh object is reported as `answer-depends-on-history`.
 
 The native `BasicState` keeps annotation angles in single precision, so the Jones angles are read
 *back* from the constructed state; their cos/sin (float64, external functions of the model) are sent
@@ -22,6 +29,7 @@ import itertools
 import json
 import math
 import os
+import threading
 from fractions import Fraction
 
 import numpy as np
@@ -895,7 +903,7 @@ def gen_session(chk, rng, max_m, max_depth, max_ops, nmax, max_steps):
     nq = rng.randint(2, max_steps)
     while sum(st["op"] in QUERY_OPS for st in steps) < nq:
         r = rng.random()
-        if steps and r < 0.22:
+        if steps and r < 0.27:
             # the circuit in force changes between two queries
             kinds = ["add", "add"]
             if not proc:
@@ -1105,7 +1113,7 @@ def judge_session(chk, case, obs=None, rep=None, count=False):
             if prev is not None:
                 if not changed:
                     if ident and not rejected and prev[0] is False and not prev[3] and n > 0:
-                        chk.branch("session-h-after-prepared")
+                        chk.branch("session-h-after-prepared" + ("-processor" if case["path"] == "processor" else ""))
                     if ident is False and prev[0] is False and key != prev[1] and not rejected and not prev[3]:
                         chk.branch("session-preparation-changes")
                     if key == prev[1] and not rejected:
@@ -1199,13 +1207,21 @@ def count_session(chk, case):
     return sig, nontrivial
 
 
-def handle_sessions(chk, cases):
+def prepare_sessions(cases):
     obs_list, reqs = [], []
     for case in cases:
         obs, ljs = observe_session(case)
         obs_list.append(obs)
         reqs.append(session_req(case, obs, ljs))
-    reps = chk.lean.ask_many(reqs)
+    return obs_list, reqs
+
+
+def handle_sessions(chk, cases):
+    obs_list, reqs = prepare_sessions(cases)
+    finish_sessions(chk, cases, obs_list, chk.lean.ask_many(reqs))
+
+
+def finish_sessions(chk, cases, obs_list, reps):
     for case, obs, rep in zip(cases, obs_list, reps):
         sig, nontrivial = count_session(chk, case)
         chk.case(sig, nontrivial=nontrivial,
@@ -1313,7 +1329,66 @@ def gen_case(chk, rng, max_m, max_depth, max_ops, nmax):
     return {"kind": "probs", "tree": tree, "modes": modes, "path": path, "backend": rng.choice(["SLOS", "Naive"])}
 
 
-def handle_batch(chk, cases):
+class LockedLean:
+    """the Lean driver behind a lock: one request stream, used by the pipeline thread and by judge/shrink"""
+
+    def __init__(self, drv):
+        self._d = drv
+        self._lock = threading.RLock()
+
+    def ask(self, req):
+        with self._lock:
+            return self._d.ask(req)
+
+    def ask_many(self, reqs):
+        with self._lock:
+            return self._d.ask_many(reqs)
+
+    def close(self):
+        self._d.close()
+
+    @property
+    def n(self):
+        return self._d.n
+
+
+def pipelined(chk, batches, prepare, finish):
+    """prepare(batch) -> (ctx, reqs) runs the real code; finish(chk, batch, ctx, reps) judges.  The model's replies
+    for batch k are computed by the Lean driver while the real code runs for batch k+1 (same results as the
+    sequential loop: all cases are generated beforehand, judging stays in order)."""
+    def start(reqs):
+        box = {}
+
+        def work():
+            try:
+                box["reps"] = chk.lean.ask_many(reqs)
+            except BaseException as e:      # re-raised in the main thread (LeanError -> 'broken lean-driver')
+                box["exc"] = e
+        th = threading.Thread(target=work, daemon=True)
+        th.start()
+        return th, box
+
+    def join(job):
+        th, box = job
+        th.join()
+        if "exc" in box:
+            raise box["exc"]
+        return box["reps"]
+
+    flying = None          # (batch, ctx, job)
+    for batch in batches:
+        ctx, reqs = prepare(batch)
+        done = None
+        if flying is not None:
+            done = (flying[0], flying[1], join(flying[2]))
+        flying = (batch, ctx, start(reqs))
+        if done is not None:
+            finish(chk, *done)
+    if flying is not None:
+        finish(chk, flying[0], flying[1], join(flying[2]))
+
+
+def prepare_batch(cases):
     obs_list = []
     reqs = []
     idx = []
@@ -1323,7 +1398,16 @@ def handle_batch(chk, cases):
         if "build_err" not in obs:
             idx.append(i)
             reqs.append(lean_req(case, obs))
-    reps = chk.lean.ask_many(reqs)
+    return (obs_list, idx), reqs
+
+
+def handle_batch(chk, cases):
+    ctx, reqs = prepare_batch(cases)
+    finish_batch(chk, cases, ctx, chk.lean.ask_many(reqs))
+
+
+def finish_batch(chk, cases, ctx, reps):
+    obs_list, idx = ctx
     rep_of = dict(zip(idx, reps))
     for i, case in enumerate(cases):
         sig, nontrivial = count_case(chk, case)
@@ -1356,9 +1440,13 @@ def run(chk: core.Check):
                 "sub-circuits, merged or not, polarised or purely ordinary) × compute_unitary(use_polarization="
                 "None|True|False), and × polarised inputs (labels, elliptical rational Jones vectors, one or two "
                 "orthogonal polarisations per mode, repeated and unannotated photons, vacuum; 10% inadmissible) through "
-                "SimulatorFactory(SLOS|Naive).probs and Processor.with_polarized_input+probs; distinct = distinct "
-                "(path, circuit shape, input pattern); non-trivial = circuit has a polarising and an ordinary "
-                "mode-mixing component and (for simulations) a non-H/V polarisation")
+                "SimulatorFactory(SLOS|Naive).probs and Processor.with_polarized_input+probs; plus sessions: one "
+                "long-lived simulator / Processor object serving 2-6 queries (probs, probs_svd, evolve; all-H after "
+                "prepared, repeated, vacuum, inadmissible inputs) with set_circuit / add / Parameter.set_value in "
+                "between, every reply compared with the model's state machine and the stateless specification; "
+                "compute_unitary re-asked on the same circuit object; distinct = distinct "
+                "(path, circuit shape, input pattern / step pattern); non-trivial = circuit has a polarising and an "
+                "ordinary mode-mixing component and (for simulations) a non-H/V polarisation")
     chk.assumptions = [
         "ordinary leaves' k×k matrices are taken from each leaf's own compute_unitary() (their correctness is C14)",
         "cos/sin of the stored (single-precision) Jones angles and of HWP/QWP's constant are computed by the harness in "
@@ -1373,11 +1461,11 @@ def run(chk: core.Check):
         "non-orthogonal-rejected", "three-vectors-rejected", "factory-slos", "factory-naive", "processor",
         "empty-circuit", "label-table", "unitary-recomputed",
         # one long-lived object serving a history of requests
-        "session-h-after-prepared", "session-preparation-changes", "session-same-input-again",
+        "session-h-after-prepared", "session-h-after-prepared-processor", "session-preparation-changes", "session-same-input-again",
         "session-circuit-changed", "session-same-input-new-circuit", "session-photon-number-changes",
         "session-after-rejected-input", "session-set", "session-add", "session-retune",
         "session-factory-probs", "session-factory-svd", "session-factory-evolve", "session-processor"]
-    chk.lean = core.LeanDriver("C13")
+    chk.lean = LockedLean(core.LeanDriver("C13"))
     check_labels(chk)
     rng = chk.rng
     n = chk.pick(600, 4500)
@@ -1390,12 +1478,10 @@ def run(chk: core.Check):
         handle_batch(chk, [c for c in corpus if c["kind"] != "session"])
         handle_sessions(chk, [c for c in corpus if c["kind"] == "session"])
     cases = [gen_case(chk, rng, max_m, max_depth, max_ops, nmax) for _ in range(n)]
-    for i in range(0, len(cases), 200):
-        handle_batch(chk, cases[i:i + 200])
-    ns = chk.pick(140, 1000)
+    ns = chk.pick(120, 900)
     sessions = [gen_session(chk, rng, max_m, max_depth, max_ops, nmax, chk.pick(4, 6)) for _ in range(ns)]
-    for i in range(0, len(sessions), 50):
-        handle_sessions(chk, sessions[i:i + 50])
+    pipelined(chk, [cases[i:i + 100] for i in range(0, len(cases), 100)], prepare_batch, finish_batch)
+    pipelined(chk, [sessions[i:i + 30] for i in range(0, len(sessions), 30)], prepare_sessions, finish_sessions)
 
 
 def replay(chk, data):
